@@ -100,7 +100,52 @@ class Package:
         src, code = _load_source(path)
         self.sources[sub] = src
         exec(code, m.__dict__)
+        self.snapshot_globals([m])       # the state right after import is the pristine one
         return m
+
+    # ---- module-level mutable state (memo tables, workspaces, lru caches, class-level containers) ----
+    # Every explored path must start from the state of a fresh process, exactly like the replay of a counterexample
+    # does; call histories inside one path are the harness's business.  Containers are restored in place.
+    def _mutable_slots(self, mods=None):
+        for m in (mods if mods is not None else self.mods.values()):
+            owners = [m.__dict__] + [c.__dict__ for c in m.__dict__.values() if isinstance(c, type) and getattr(c, '__module__', None) == m.__name__]
+            for d in owners:
+                for k, v in list(d.items()):
+                    if k.startswith('__'):
+                        continue
+                    if isinstance(v, (dict, list, set, bytearray)) or type(v).__name__ in ('ndarray', 'SArr', 'Tensor', 'defaultdict', 'OrderedDict', 'deque'):
+                        yield d, k, v
+                    elif callable(v) and type(v).__name__ == '_lru_cache_wrapper':
+                        yield d, k, v
+
+    def snapshot_globals(self, mods=None):
+        import copy
+        if not hasattr(self, '_pristine'):
+            self._pristine = []
+        for d, k, v in self._mutable_slots(mods):
+            if hasattr(v, 'cache_clear'):
+                self._pristine.append((v, 'lru', None))
+                continue
+            try:
+                self._pristine.append((v, 'copy', copy.deepcopy(v)))
+            except Exception:
+                pass
+
+    def reset_globals(self):
+        import copy
+        for v, how, orig in getattr(self, '_pristine', ()):
+            try:
+                if how == 'lru':
+                    v.cache_clear()
+                elif isinstance(v, (dict, set)) or type(v).__name__ in ('defaultdict', 'OrderedDict'):
+                    v.clear()
+                    v.update(copy.deepcopy(orig))
+                elif isinstance(v, (list, bytearray)) or type(v).__name__ == 'deque':
+                    v[:] = copy.deepcopy(orig)
+                else:
+                    v[...] = orig
+            except Exception:
+                pass
 
     def kernel(self, name):
         for k in self.kernels:
